@@ -31,11 +31,17 @@ module Nat :
   val leb : nat -> nat -> bool
 
   val ltb : nat -> nat -> bool
+
+  val divmod : nat -> nat -> nat -> nat -> nat * nat
+
+  val div : nat -> nat -> nat
  end
 
 val nth : nat -> 'a1 list -> 'a1 -> 'a1
 
 val nth_error : 'a1 list -> nat -> 'a1 option
+
+val rev : 'a1 list -> 'a1 list
 
 val map : ('a1 -> 'a2) -> 'a1 list -> 'a2 list
 
@@ -51,6 +57,10 @@ val combine : 'a1 list -> 'a2 list -> ('a1 * 'a2) list
 
 val firstn : nat -> 'a1 list -> 'a1 list
 
+val skipn : nat -> 'a1 list -> 'a1 list
+
+val seq : nat -> nat -> nat list
+
 val repeat : 'a1 -> nat -> 'a1 list
 
 type positive =
@@ -65,6 +75,14 @@ type z =
 
 module Pos :
  sig
+  type mask =
+  | IsNul
+  | IsPos of positive
+  | IsNeg
+ end
+
+module Coq_Pos :
+ sig
   val succ : positive -> positive
 
   val add : positive -> positive -> positive
@@ -73,11 +91,34 @@ module Pos :
 
   val pred_double : positive -> positive
 
+  type mask = Pos.mask =
+  | IsNul
+  | IsPos of positive
+  | IsNeg
+
+  val succ_double_mask : mask -> mask
+
+  val double_mask : mask -> mask
+
+  val double_pred_mask : positive -> mask
+
+  val sub_mask : positive -> positive -> mask
+
+  val sub_mask_carry : positive -> positive -> mask
+
+  val sub : positive -> positive -> positive
+
   val mul : positive -> positive -> positive
+
+  val size_nat : positive -> nat
 
   val compare_cont : comparison -> positive -> positive -> comparison
 
   val compare : positive -> positive -> comparison
+
+  val ggcdn : nat -> positive -> positive -> positive * (positive * positive)
+
+  val ggcd : positive -> positive -> positive * (positive * positive)
 
   val iter_op : ('a1 -> 'a1 -> 'a1) -> positive -> 'a1 -> 'a1
 
@@ -104,12 +145,38 @@ module Z :
 
   val compare : z -> z -> comparison
 
+  val sgn : z -> z
+
   val ltb : z -> z -> bool
+
+  val abs : z -> z
 
   val to_nat : z -> nat
 
   val of_nat : nat -> z
+
+  val to_pos : z -> positive
+
+  val ggcd : z -> z -> z * (z * z)
  end
+
+type q = { qnum : z; qden : positive }
+
+val inject_Z : z -> q
+
+val qplus : q -> q -> q
+
+val qmult : q -> q -> q
+
+val qopp : q -> q
+
+val qminus : q -> q -> q
+
+val qinv : q -> q
+
+val qdiv : q -> q -> q
+
+val qred : q -> q
 
 type sx =
 | SZ of z
@@ -127,6 +194,8 @@ val opt_all : 'a1 option list -> 'a1 list option
 
 val dlist : (sx -> 'a1 option) -> sx -> 'a1 list option
 
+val dq : sx -> q option
+
 val ez : z -> sx
 
 val enat : nat -> sx
@@ -134,6 +203,8 @@ val enat : nat -> sx
 val ebool : bool -> sx
 
 val elist : ('a1 -> sx) -> 'a1 list -> sx
+
+val eq_ : q -> sx
 
 val eopt : ('a1 -> sx) -> 'a1 option -> sx
 
@@ -235,3 +306,57 @@ val run_op : st -> sx -> st * sx
 val run_ops : st -> sx list -> sx list
 
 val run_C13 : sx -> sx
+
+val scatter : 'a1 option list -> nat list -> 'a1 list -> 'a1 option list
+
+val select : nat list -> bool list -> nat list
+
+type ('d, 'sol) ask_result =
+| Done of 'sol option list * 'd option list * nat * nat
+| NeedMore of nat
+| OutOfFuel
+
+val ask_loop :
+  ('a1 -> 'a2) -> ('a2 -> bool) -> nat -> nat list -> 'a1 list -> 'a2 option
+  list -> 'a1 option list -> nat -> nat -> ('a1, 'a2) ask_result
+
+val ask :
+  ('a1 -> 'a2) -> ('a2 -> bool) -> nat -> 'a1 list -> ('a1, 'a2) ask_result
+
+val ask_mirror :
+  ('a1 -> 'a2) -> ('a1 -> 'a1) -> nat -> 'a1 list -> ('a1, 'a2) ask_result
+
+val vadd : q list -> q list -> q list
+
+val vscale : q -> q list -> q list
+
+val gather : 'a1 -> 'a1 list -> nat list -> 'a1 list
+
+val select_parents : 'a1 -> 'a1 list -> nat list -> nat -> 'a1 list
+
+val wmean : nat -> q list -> q list list -> q list
+
+type counter_kind =
+| Evals
+| Gens
+
+type dstate = { d_mean : q list; d_count : nat }
+
+val tell_mean :
+  counter_kind -> (nat -> q list) -> dstate -> q list list -> nat list -> nat
+  -> dstate
+
+val openai_ranks : nat -> nat list -> nat option list
+
+val qnat : nat -> q
+
+val centred : nat -> nat option -> q
+
+val vsum : nat -> q list list -> q list
+
+val openai_gradient :
+  bool -> nat -> nat -> q -> q list list -> nat list -> q list
+
+val eresult : ('a2 -> sx) -> ('a1 -> sx) -> ('a1, 'a2) ask_result -> sx
+
+val run_C18 : sx -> sx
